@@ -108,7 +108,8 @@ def fmt_requests(ctx, quick, mid=False):
                 for p in range(4):
                     reqs.append((x, p))
     for x in (65.00000000000001, 1e-05, 5e-05, 1e-07, 0.0, 59.99999999, 3599.9999999, 12.000000001, 0.1 + 0.2, 0.99999,
-              0.999994, 0.9999949999, 59.9995, 3599.99, 0.9999999999, 0.12300999996, 0, 59, 60, 3600, 360000):
+              0.999994, 0.9999949999, 59.9995, 3599.99, 0.9999999999, 0.12300999996, 0, 59, 60, 3600, 360000,
+              -0.0, round(-1e-9, 3), 0.0 * -1):   # a zero with the sign bit set is a non-negative duration (== 0)
         for p in range(6):
             reqs.append((x, p))
     n = 6000 if quick else 60000
